@@ -1196,7 +1196,8 @@ def check_dispatch(ctx):
     for c in adds:
         if u(c.func) == 'np.add':
             cst_ = next((s_ for s_ in stmts_in(fn.body) if not isinstance(s_, (ast.If, ast.For, ast.While, ast.With, ast.Try)) and any(x is c for x in ast.walk(s_))), None)
-            okn = okn or ([u(a) for a in c.args[:1]] + [u(fl.resolve(a, cst_)) for a in c.args[1:]] == [ip, 'len(self)'] and isinstance(get_kw(c, 'where'), ast.Name))
+            okn = okn or ([u(a) for a in c.args[:1]] + [u(fl.resolve(a, cst_)) for a in c.args[1:]] == [ip, 'len(self)'] and isinstance(get_kw(c, 'where'), ast.Name)
+                          and get_kw(c, 'out') is not None and u(get_kw(c, 'out')) == ip)          # in place: without out= the sum is discarded (and undefined where the mask is False)
             negname = u(get_kw(c, 'where')) if get_kw(c, 'where') is not None else negname
         else:
             okn = okn or (len(c.args) == 3 and isinstance(c.args[0], ast.Name) and u(c.args[1]) in (f'{ip} + len(self)', f'len(self) + {ip}') and u(c.args[2]) == ip)
@@ -2502,6 +2503,7 @@ VARIANTS = [
     V('shared copy loop writes every signature into slot 0', 'B', _B, _FILL, "\t\tout._fill(map(self._getitem_int, indices))\n", 'X5',
       also=[(_B, _INIT_FILL, "\t\t\tself._fill(signatures)\n"), (_B, _INIT_FROM, _INIT_FROM + _FILL_METHOD.replace("self[i]", "self[0]"))]),
     # ---- X1: conversions decided by their meaning
+    V('negative conversion computed but not stored (out= dropped; mutation probe)', 'B', _I, "np.add(index, len(self), out=index, where=isneg)", "np.add(index, len(self), where=isneg)", 'X1'),
     V('negative entries converted only when there are none', 'B', _I, "\t\t\tif isneg.any():\n", "\t\t\tif not isneg.any():\n", 'X1'),
     V('E: negative conversion without the any() shortcut', 'E', _I, "\t\t\tif isneg.any():\n\t\t\t\t# Don't", "\t\t\tif True:\n\t\t\t\t# Don't"),
     V('empty sequence becomes a one-element index', 'B', _I, "index = np.empty(0, dtype=int)", "index = np.empty(1, dtype=int)", 'X1'),
